@@ -711,6 +711,10 @@ public class Sink extends Thread implements Runnable, Cloneable {
     void other() { return; }
     static void helperCall(Object... x) { }
 }
+record Point(int x, int y) { int sum() { return x + y; } }
+enum Color { RED, GREEN; int code() { return ordinal() * 2; } }
+interface Shape { int area(); default int twice() { return area() << 1; } }
+@interface Marker { int value() default 0; }
 """ % (ops, cmps)
 
 
